@@ -328,6 +328,7 @@ inductive Val where
   | int (i : Int)
   | str (s : Str)
   | route (rq : Int) (rs : Int) (ch : Int)
+  | route2 (rq1 : Int) (rs1 : Int) (ch1 : Int) (rq2 : Int) (rs2 : Int)   -- [(rq1, rs1, ch1), (rq2, rs2, None)]
   | emptyList
   deriving Repr, DecidableEq
 
@@ -800,6 +801,39 @@ def intendedSensorReads : List SensorRead := [
   ⟨"sdr show", 0x01, .ownerLun⟩, ⟨"sdr show", 0x02, .default⟩,
   ⟨"sdr showall", 0x01, .ownerLun⟩, ⟨"sdr showall", 0x02, .default⟩]
 
+/-! ## `Aardvark.open`: which interface options reach the adapter
+
+`-I aardvark -o pullups=<on|off>,power=<on|off>,fastmode=<on|off>` become the keyword arguments
+`enable_i2c_pullups` / `enable_target_power` / `enable_fastmode` (True / False; absent: None) of the interface;
+`open()` writes them to the adapter under a guard the translator reads off the source: `if self.x is not None:`
+or `if self.x:` (as shipped for pull-ups and target power - `off` never reaches the adapter). -/
+
+structure AardvarkGuards where
+  pullupsNotNone : Bool     -- `if self.i2c_pullups is not None:` (true) / `if self.i2c_pullups:` (false)
+  powerNotNone : Bool       -- `if self.target_power is not None:` / `if self.target_power:`
+  deriving Repr, DecidableEq
+
+inductive AdapterWrite where
+  | pullups (on : Bool)
+  | power (on : Bool)
+  | bitrate (khz : Nat)
+  deriving Repr, DecidableEq
+
+/-- `if v is not None:` / `if v:` on a value that is None, True or False -/
+def guardPasses (notNone : Bool) : Option Bool → Bool
+  | none => false
+  | some v => notNone || v
+
+/-- the attribute writes of `Aardvark.open()`, in order (fast mode: 400 kHz, else - `off` or absent - 100 kHz) -/
+def aardvarkOpenWrites (g : AardvarkGuards) (pullups power fastmode : Option Bool) : List AdapterWrite :=
+  (match pullups with
+    | some v => if guardPasses g.pullupsNotNone pullups then [.pullups v] else []
+    | none => []) ++
+  (match power with
+    | some v => if guardPasses g.powerNotNone power then [.power v] else []
+    | none => []) ++
+  [.bitrate (if fastmode == some true then 400 else 100)]
+
 /-! ## `main` up to the handler call -/
 
 /-- the constants and variable roles the translator reads off `main` -/
@@ -821,6 +855,10 @@ structure MainShape where
   vPassword : Nat
   vPriv : Nat               --   if <vPriv> is not None: set_priv_level(<vPriv>)
   closeInside : Bool        -- `ipmi.close()` in a try/finally INSIDE the try that has the except clauses
+  /-- `if <vRouting> is None and <vChannel> is not None: <vRouting> = [(rq1, rs1, <vChannel>), (rq2, <vTarget>, None)]`
+  after the option loop: (vChannel, rq1, rs1, rq2); `none` ↦ main has no such statement (as shipped: `-b` writes
+  a ONE-hop list into <vRouting> itself, `Conv.routeChannel`) -/
+  bridge : Option (Nat × Int × Int × Int) := none
   deriving Repr
 
 def lower (s : Str) : Str := s.map fun c => if 65 ≤ c ∧ c ≤ 90 then c + 32 else c
@@ -852,6 +890,16 @@ inductive MainResult where
 
 def getv (vs : List Val) (i : Nat) : Val := vs.getD i .none
 
+/-- the routing handed to `Target.set_routing`: the explicit one (`-r`, or as shipped the list `-b` wrote), else -
+if main has the bridging statement and a channel was given - the two hops "console → BMC over the channel → target" -/
+def bridgedRouting (sh : MainShape) (vs : List Val) : Val :=
+  match sh.bridge with
+  | none => getv vs sh.vRouting
+  | some (vc, rq1, rs1, rq2) =>
+    match getv vs sh.vRouting, getv vs vc, getv vs sh.vTarget with
+    | .none, .int ch, .int t => .route2 rq1 rs1 ch rq2 t
+    | r, _, _ => r
+
 def mainModel (sh : MainShape) (cmds : List Command) (knownIfaces : List Str) (argv : List Str) :
     MainResult :=
   match getopt sh.optString argv with
@@ -875,7 +923,7 @@ def mainModel (sh : MainShape) (cmds : List Command) (knownIfaces : List Str) (a
             let target := match getv vs sh.vTarget with
               | .int 0 => Val.none
               | v => v
-            let routing := getv vs sh.vRouting
+            let routing := bridgedRouting sh vs
             match getv vs sh.vHost with
             | .none => .launch ⟨entry, rest, iface, io, target, routing, none⟩
             | host =>
